@@ -8,6 +8,7 @@ import Driver.Sut.Ident
 import Driver.Sut.GList
 import Driver.Sut.Map
 import Driver.Sut.Merkle
+import Driver.Sut.Serde
 /-! Line-protocol driver: reads a command script on stdin, prints the model's canonical observation
 (and, after ` | `, the value of the specification functions) for every command. -/
 open Driver
@@ -49,7 +50,11 @@ def pureCmd (f : String) (args : List String) : String :=
     | none =>
       match pureList f args with
       | some r => "r=" ++ r
-      | none => "badcmd"
+      | none =>
+        match pureSerde f args with
+        -- C19 oracle: re-encoding a pinned vector reproduces the pinned text
+        | some r => "r=" ++ r ++ " | pinned=true"
+        | none => "badcmd"
 
 def step (cur : Option Machine) (line : String) : Option Machine × String :=
   let toks := (line.trimAscii.toString.splitOn " ").filter (· ≠ "")
